@@ -502,9 +502,8 @@ let lookup_nu off _ v n1 _ _ =
 
 (** val lookup_nup : (z -> z) -> z -> z -> z -> z -> z -> z **)
 
-let lookup_nup off _ v n1 n2 n3 =
-  Z.add (Z.sub n3 (off v))
-    (if (&&) (Z.eqb n1 n2) (Z.eqb n3 (Zpos XH)) then Zpos XH else Z0)
+let lookup_nup off _ v _ _ n3 =
+  Z.sub n3 (off v)
 
 (** val lookup_off_reads : z -> z -> z -> z -> z -> z list **)
 
